@@ -2,7 +2,7 @@
 argv[1] = JSON file {"base": dir, "cases": [{"n", "size": [...], "atime": [...], "bytes", "items", "age", "str": bool}, ...]} ; -1 = None."""
 import sys, os, json, glob, shutil, datetime, warnings, time
 
-U = 1024; D = 100000; NOW = 4
+U = 1024; D = 20000; NOW = 4       # D: one step of access time (5.5 h): the half-step safety margin stays below every time-zone offset used by the check
 
 
 def main():
